@@ -444,8 +444,9 @@ def rejections(cfg, fn_node: ast.AST, defs: Defs | None = None) -> list[dict]:
                     if prev is child:
                         break
                     if isinstance(prev, ast.If) and prev.body and isinstance(prev.body[-1], ast.Continue) and not prev.orelse:
-                        conds.append(nnf(prev.test, neg=True))
-                        tests.append((prev.test, False))
+                        pt = defs.resolve(prev.test) if defs is not None else prev.test
+                        conds.append(nnf(pt, neg=True))
+                        tests.append((pt, False))
         for test, truth in cfg.controls(n):
             t = defs.resolve(test) if defs is not None else test
             tests.append((t, truth))
@@ -836,30 +837,45 @@ def param_mutated_in_closure(ctx, fn: FuncInfo, param: str, depth: int = 4, _see
 
 def dependence_text(fn_node: ast.AST, expr: ast.AST, depth: int = 4) -> str:
     """Text of `expr` followed by the texts of everything its names are computed from inside the function: the values
-    assigned to them (all definitions) and the tests of the `if`s that decide which definition applies."""
+    assigned to them (all definitions, in-place growth, what a loop variable ranges over) and the tests of the `if`s that
+    decide which definition applies."""
     par = {id(c): p for p in ast.walk(fn_node) for c in ast.iter_child_nodes(p)}
     seen: set[str] = set()
     out = [norm(expr)]
     frontier = {x.id for x in ast.walk(expr) if isinstance(x, ast.Name)}
+
+    def controls(node: ast.AST) -> list[ast.AST]:
+        res = []
+        y = node
+        while id(y) in par:
+            y = par[id(y)]
+            if isinstance(y, (ast.If, ast.While, ast.IfExp)):
+                res.append(y.test)
+        return res
+
     for _ in range(depth):
         nxt: set[str] = set()
         for name in frontier - seen:
             seen.add(name)
+            sources: list[tuple[ast.AST, ast.AST]] = []  # (defining construct, value expression)
             for a in ast.walk(fn_node):
                 tg = a.targets if isinstance(a, ast.Assign) else ([a.target] if isinstance(a, (ast.AnnAssign, ast.AugAssign, ast.NamedExpr)) else [])
-                if not any(isinstance(x, ast.Name) and x.id == name for t in tg for x in ast.walk(t)):
-                    continue
-                if getattr(a, "value", None) is not None:
-                    out.append(norm(a.value))
-                    nxt |= {x.id for x in ast.walk(a.value) if isinstance(x, ast.Name)}
-                y: ast.AST = a
-                while id(y) in par:
-                    y = par[id(y)]
-                    if isinstance(y, (ast.If, ast.While, ast.IfExp)):
-                        out.append(norm(y.test))
-                        nxt |= {x.id for x in ast.walk(y.test) if isinstance(x, ast.Name)}
+                if any(isinstance(x, ast.Name) and x.id == name for t in tg for x in ast.walk(t)) and getattr(a, "value", None) is not None:
+                    sources.append((a, a.value))
+                # in-place growth counts as a definition: name.append(v) / extend / update / add / setdefault / insert
+                if isinstance(a, ast.Call) and isinstance(a.func, ast.Attribute) and isinstance(a.func.value, ast.Name) and a.func.value.id == name and a.func.attr in ("append", "extend", "update", "add", "setdefault", "insert"):
+                    sources += [(a, v) for v in [*a.args, *[k.value for k in a.keywords]]]
+                # a loop / comprehension variable is computed from what it ranges over
+                if isinstance(a, (ast.For, ast.AsyncFor, ast.comprehension)) and any(isinstance(x, ast.Name) and x.id == name for x in ast.walk(a.target)):
+                    sources.append((a, a.iter))
+            for node, v in sources:
+                out.append(norm(v))
+                nxt |= {x.id for x in ast.walk(v) if isinstance(x, ast.Name)}
+                for t in controls(node):
+                    out.append(norm(t))
+                    nxt |= {x.id for x in ast.walk(t) if isinstance(x, ast.Name)}
         frontier = nxt
-    return " ;; ".join(out)
+    return " ;; ".join(dict.fromkeys(out))
 
 
 def parse_expr(text: str) -> ast.AST:
